@@ -201,14 +201,31 @@ def run_shard(rec, tier, seed, shard, nshards):
                 rec.sample({"kind": "history", "rows": len(model.order), "plates": len(model.plate), "ops": trace[:10]})
 
         # ------------------------------------------------ refusal clauses of reveal
-        n_ref = {"quick": 16, "thorough": 200}[tier]
+        n_ref = {"quick": 28, "thorough": 280}[tier]
         for _ in range(n_ref):
             kw = gen.realistic_screen_kwargs(rng, n_rows=(4, 24), n_plates=(2, 5), observed="none")
             pn = kw["plate_names"]
             plates = list(np.unique(pn))
             victim = str(rng.choice(plates))
             obs = kw["observations"].copy()
-            kind = str(rng.choice(["zero", "nan", "negzero"]))
+            kind = str(rng.choice(["zero", "nan", "negzero", "almost-zero"]))
+            if kind == "almost-zero":
+                # all zero except one value that is tiny but not zero: this plate is NOT all zero and must be revealed
+                obs[pn == victim] = 0.0
+                ix = np.flatnonzero(pn == victim)
+                obs[int(rng.choice(ix))] = float(rng.choice([1e-9, -1e-12, 5e-324, 1e-300, 1e-7, -3e-10]))
+                kw["observations"] = obs
+                s = Screen(**kw)
+                name_to_id = dict(zip([str(x) for x in s.plate_mapping[0]], [int(x) for x in s.plate_mapping[1]]))
+                rec.case(("refusal", kind, 1))
+                rec.count("almost_zero_plates_revealed")
+                rec.count("oracle_evals")
+                try:
+                    out = R.reveal_plates(s, [name_to_id[victim]])
+                    rec.check(bool(np.all(np.asarray(out.observation_mask)[pn == victim])) and kit.bytes_equal(out.observations, obs), "C12/reveal/refused-legitimate", "a plate with one tiny non-zero value was not revealed exactly", {"values": obs[pn == victim].tolist()})
+                except Exception as e:
+                    rec.violation("C12/reveal/refused-legitimate", "revealing a plate whose values are %r (not all zero, no NaN) raised %r" % (obs[pn == victim].tolist(), e), {"values": obs[pn == victim].tolist()})
+                continue
             if kind == "zero":
                 obs[pn == victim] = 0.0
             elif kind == "negzero":
